@@ -446,7 +446,7 @@ func builtin___build_class__(self py.Object, args py.Tuple, kwargs py.StringDict
 			meta = py.TypeType
 		} else {
 			// else get the type of the first base
-			meta = bases[0].Type()
+			meta = py.MetaclassOf(bases[0])
 		}
 		isclass = true // meta is really a class
 	}
